@@ -255,13 +255,13 @@ impl Ctl {
             }
         }
         while g.cur != me {
-            g = self.cv.wait(g).unwrap();
+            g = self.cv.wait(g).unwrap_or_else(|e| e.into_inner());
         }
         g
     }
 
     fn finish_hang(&self) -> ! {
-        let g = self.m.lock().unwrap();
+        let g = self.m.lock().unwrap_or_else(|e| e.into_inner());
         let why = g.hang.clone().unwrap_or_default();
         println!("HANG {} at t={}ns", why, g.now);
         for (i, t) in g.threads.iter().enumerate() {
@@ -345,7 +345,7 @@ impl Hooks for Ctl {
         if me == usize::MAX {
             return;
         }
-        let mut g = self.m.lock().unwrap();
+        let mut g = self.m.lock().unwrap_or_else(|e| e.into_inner());
         if !g.sched_files.is_empty() && !g.sched_files.iter().any(|s| loc.file().ends_with(s)) {
             return;
         }
@@ -395,7 +395,7 @@ impl Hooks for Ctl {
             return;
         }
         let co = self.cur_co();
-        let mut g = self.m.lock().unwrap();
+        let mut g = self.m.lock().unwrap_or_else(|e| e.into_inner());
         g.threads[me].yielded = false;
         if !g.record {
             return;
@@ -411,7 +411,7 @@ impl Hooks for Ctl {
             return;
         }
         let co = self.cur_co();
-        let mut g = self.m.lock().unwrap();
+        let mut g = self.m.lock().unwrap_or_else(|e| e.into_inner());
         match name {
             "co.resume" => {
                 g.progress += 1;
@@ -430,7 +430,7 @@ impl Hooks for Ctl {
     }
 
     fn now_ns(&self) -> u64 {
-        self.m.lock().unwrap().now
+        self.m.lock().unwrap_or_else(|e| e.into_inner()).now
     }
 
     fn block(&self, key: usize, deadline: Option<u64>) -> bool {
@@ -438,7 +438,7 @@ impl Hooks for Ctl {
         if me == usize::MAX {
             panic!("unregistered thread blocks on the virtual scheduler");
         }
-        let mut g = self.m.lock().unwrap();
+        let mut g = self.m.lock().unwrap_or_else(|e| e.into_inner());
         if let Some(p) = g.tokens.iter().position(|&k| k == key) {
             g.tokens.swap_remove(p);
             return true;
@@ -454,7 +454,7 @@ impl Hooks for Ctl {
     }
 
     fn wake(&self, key: usize) {
-        let mut g = self.m.lock().unwrap();
+        let mut g = self.m.lock().unwrap_or_else(|e| e.into_inner());
         g.progress += 1;
         g.stale_polls = 0;
         for t in g.threads.iter_mut() {
@@ -472,7 +472,7 @@ impl Hooks for Ctl {
     }
 
     fn clear(&self, key: usize) {
-        let mut g = self.m.lock().unwrap();
+        let mut g = self.m.lock().unwrap_or_else(|e| e.into_inner());
         if let Some(p) = g.tokens.iter().position(|&k| k == key) {
             g.tokens.swap_remove(p);
         }
@@ -481,7 +481,7 @@ impl Hooks for Ctl {
     fn spawn(&self, name: String, f: Box<dyn FnOnce() + Send + 'static>) {
         let rt = name == "rt";
         let idx = {
-            let mut g = self.m.lock().unwrap();
+            let mut g = self.m.lock().unwrap_or_else(|e| e.into_inner());
             let prio = g.new_prio();
             let n = g.threads.len();
             g.threads.push(T {
@@ -506,13 +506,13 @@ impl Hooks for Ctl {
             .spawn(move || {
                 TID.with(|t| t.set(idx));
                 {
-                    let mut g = ctl.m.lock().unwrap();
+                    let mut g = ctl.m.lock().unwrap_or_else(|e| e.into_inner());
                     while g.cur != idx {
-                        g = ctl.cv.wait(g).unwrap();
+                        g = ctl.cv.wait(g).unwrap_or_else(|e| e.into_inner());
                     }
                 }
                 let r = std::panic::catch_unwind(std::panic::AssertUnwindSafe(f));
-                let mut g = ctl.m.lock().unwrap();
+                let mut g = ctl.m.lock().unwrap_or_else(|e| e.into_inner());
                 if r.is_err() {
                     let n = g.threads[idx].name.clone();
                     g.oracle_fail.push(format!("thread-panicked {n}"));
@@ -557,7 +557,7 @@ impl Hooks for Ctl {
         if me == usize::MAX {
             return std::thread::yield_now();
         }
-        let mut g = self.m.lock().unwrap();
+        let mut g = self.m.lock().unwrap_or_else(|e| e.into_inner());
         g.steps += 1;
         if g.steps > g.max_steps {
             g.hang = Some(format!("step budget {} exhausted (livelock?)", g.max_steps));
@@ -640,7 +640,7 @@ pub struct JoinH(usize);
 impl Ctx {
     /// spawn a scenario thread that takes part in the schedule
     pub fn spawn<F: FnOnce() + Send + 'static>(&self, name: &str, f: F) -> JoinH {
-        let n = self.ctl.m.lock().unwrap().threads.len();
+        let n = self.ctl.m.lock().unwrap_or_else(|e| e.into_inner()).threads.len();
         self.ctl.spawn(name.to_string(), Box::new(f));
         JoinH(n)
     }
@@ -656,11 +656,11 @@ impl Ctx {
     }
     /// switch trace recording on/off (e.g. off before tear-down code that no model follows)
     pub fn record(&self, on: bool) {
-        let mut g = self.ctl.m.lock().unwrap();
+        let mut g = self.ctl.m.lock().unwrap_or_else(|e| e.into_inner());
         g.record = on && std::env::var("MAYV_TRACE").is_ok();
     }
     pub fn fail(&self, what: String) {
-        self.ctl.m.lock().unwrap().oracle_fail.push(what);
+        self.ctl.m.lock().unwrap_or_else(|e| e.into_inner()).oracle_fail.push(what);
     }
     pub fn sleep_ns(&self, ns: u64) {
         let h: &dyn Hooks = self.ctl;
@@ -676,7 +676,7 @@ impl Ctx {
         h.yield_now()
     }
     pub fn rand(&self) -> u64 {
-        self.ctl.m.lock().unwrap().next_rand()
+        self.ctl.m.lock().unwrap_or_else(|e| e.into_inner()).next_rand()
     }
 }
 
@@ -686,7 +686,7 @@ impl Ctl {
         if me == usize::MAX {
             return;
         }
-        let mut g = self.m.lock().unwrap();
+        let mut g = self.m.lock().unwrap_or_else(|e| e.into_inner());
         g.steps += 1;
         drop(self.switch(g, me));
     }
@@ -695,7 +695,7 @@ impl Ctl {
 pub fn log(ctl: &Ctl, kind: &'static str, a: u64, b: u64, text: Option<String>) {
     let me = tid();
     let co = if me != usize::MAX { ctl.cur_co() } else { 0 };
-    let mut g = ctl.m.lock().unwrap();
+    let mut g = ctl.m.lock().unwrap_or_else(|e| e.into_inner());
     if !g.record {
         return;
     }
